@@ -315,6 +315,53 @@ NONE_LINENO_OK = {
 }
 
 
+def _none_field_filled(ctx, o):
+    """The None origin `o` is the reset value of a field self.F that a reader
+    function hands on.  True when every function that calls the reader first
+    executes `if self.F is None: self.F = <something>` (guard-and-fill) in the
+    block of the call or an enclosing one."""
+    import re as _re
+    m, P = ctx.model, ctx.program
+    field = reader = None
+    for hop in o.path:
+        mo = _re.match(r"(\w+): self\.(\w+)$", hop)
+        if mo:
+            reader, field = mo.group(1), mo.group(2)
+    if field is None or o.fi.cls is None:
+        return False
+    rfn = None
+    for k in m.mro(o.fi.cls.qualname):
+        c = m.classes.get(k)
+        if c is not None and reader in c.methods:
+            rfn = c.methods[reader]
+            break
+    if rfn is None:
+        return False
+    callers = []
+    for fi in m.functions.values():
+        if fi.module is not rfn.module:
+            continue
+        for call, cs in P.calls_in(fi):
+            if any(c.kind == "repo" and c.fn is rfn for c in cs):
+                callers.append((fi, call))
+    if not callers:
+        return False
+    for fi, call in callers:
+        ok = False
+        for st in _stmts_before(fi, call):
+            if isinstance(st, ast.If) and not st.orelse \
+                    and src(st.test) == "self.%s is None" % field \
+                    and any(isinstance(b, ast.Assign) and any(
+                        src(t) == "self." + field for t in b.targets)
+                        and not (isinstance(b.value, ast.Constant)
+                                 and b.value.value is None)
+                        for b in st.body):
+                ok = True
+        if not ok:
+            return False
+    return True
+
+
 def _r2_positions(ctx):
     run, m, P, F = ctx.run, ctx.model, ctx.program, ctx.flow
     # the order the consumer unpacks
@@ -370,6 +417,33 @@ def _r2_positions(ctx):
     n = 0
     for fi, call, arg, q in sinks:
         for o in F.origins(fi, arg, depth=6):
+            if o.kind == "const" and isinstance(o.node, ast.Constant) \
+                    and o.node.value is None and o.fi is not None:
+                # a position that can be None: the sinks unpack it
+                if o.fi.module.name in ("ZConfig.sphinx", "ZConfig.pygments",
+                                        "ZConfig.schema2html",
+                                        "ZConfig._schema_utils"):
+                    continue    # documentation tooling, not a load path
+                key = (o.fi.qualname, "None -> " + q.rsplit(".", 2)[-2])
+                if key not in seen and _none_field_filled(ctx, o):
+                    seen.add(key)
+                    run.ok("C07.R2", o.fi.qualname, "position None",
+                           "the None is a field's reset value; every caller "
+                           "of the reader fills the field when it is still "
+                           "None before the call", loc=m.loc(o.fi, o.node))
+                    n += 1
+                if key not in seen:
+                    seen.add(key)
+                    n += 1
+                    run.fail("C07.R2", o.fi.qualname, "position None",
+                             "a position that can be None reaches %s (in %s), "
+                             "which unpacks it as (lineno, colno, url): "
+                             "TypeError instead of the conversion error; "
+                             "value path: %s"
+                             % (q, fi.qualname, " <- ".join(o.path[-4:])),
+                             loc=m.loc(o.fi, o.node),
+                             witness={"sink": q, "via": o.path[-5:]})
+                continue
             if o.kind != "display" or not isinstance(o.node, ast.Tuple):
                 continue
             key = (o.fi.qualname, src(o.node))
